@@ -57,7 +57,7 @@ NEEDS.update({
 NEEDS.update({
  "C13e": "BSpline::t_max() with t0 != 0 and dt != 1: (t0 + N - K) * dt instead of t0 + (N - K) * dt",
  "C15e": "SO3 composition (and everything delegating to it) whose product has q_w in [-1e-8, 0): canonical-sign flip guarded by a tolerance",
- "C16e": "(see README)",
+ "C16e": "cross-storage assignment (Map<G> = Map<const G>, sub-part views) between two views of one buffer that overlap partially with the source starting AFTER the destination: copy direction chosen the wrong way round",
  "C19e": "dr_exp_sparse / dr_expinv_sparse for a commutative group or Bundle part at a non-zero block offset: diagonal loop starts at i0 but is bounded by a.size()",
 })
 conf = {}
